@@ -46,6 +46,12 @@ func checkDecoderVariant(v *tmpl.Variant, m *decoderModel, stream bool) []string
 		bad = append(bad, fmt.Sprintf("%d field arms for %d fields", len(m.Arms), len(els)))
 	}
 	for _, e := range els {
+		if !v.Consulted[e+"ˑRequired"] {
+			bad = append(bad, "the template does not distinguish required from optional for field "+e)
+		}
+		if !v.Consulted["ƒisNotNilʃ"+e+"ˑDefault"] {
+			bad = append(bad, "the template does not consult the declared default of field "+e)
+		}
 		as := byElem[e]
 		if len(as) != 1 {
 			bad = append(bad, fmt.Sprintf("field %s has %d arms", e, len(as)))
